@@ -106,6 +106,84 @@ pub fn transcode_to(obj: &mut FileObj, uid: &str) -> Result<(), String> {
     obj.transcode(ts).map_err(|e| short(format!("{e:?}")))
 }
 
+
+/// Deterministic, poorly compressible bytes: the high byte of a fixed 64-bit LCG (Knuth's MMIX
+/// constants, fixed seed). This is one constant stream, not a random sample.
+pub fn lcg_bytes(n: usize, seed: u64) -> Vec<u8> {
+    let mut x = seed;
+    (0..n)
+        .map(|_| {
+            x = x.wrapping_mul(6364136223846793005).wrapping_add(1442695040888963407);
+            (x >> 56) as u8
+        })
+        .collect()
+}
+
+fn factor(n: usize) -> Option<(u16, u16)> {
+    (1..=n.min(65535)).find(|r| n % r == 0 && n / r <= 65535).map(|r| (r as u16, (n / r) as u16))
+}
+
+/// Boundary-size family: frames whose byte size sits around the internal buffer sizes of the
+/// codecs (32 KiB, 64 KiB, 256 KiB). 65537 is prime, so 64 KiB + 2 and 64 KiB + 5 stand in for
+/// "just above 64 KiB" (even and odd).
+pub fn boundary_images() -> Vec<(String, Img)> {
+    let mut shapes: Vec<(String, u16, u16, u16, u16)> = vec![]; // name, rows, cols, bits, spp
+    for n in [32767usize, 32768, 65535, 65536, 65538, 65541, 262145] {
+        let (r, c) = factor(n).expect("factorable size");
+        shapes.push((format!("mono8-{n}"), r, c, 8, 1));
+    }
+    shapes.push(("mono16-65538".into(), 3, 10923, 16, 1));
+    shapes.push(("rgb8-65535".into(), 5, 4369, 8, 3));
+    let mut out = vec![];
+    for (name, r, c, bits, spp) in shapes {
+        for frames in [1u32, 2] {
+            let n = r as usize * c as usize * spp as usize * (bits as usize / 8) * frames as usize;
+            for content in ["lcg", "zero", "ramp"] {
+                let data: Vec<u8> = match content {
+                    "lcg" => lcg_bytes(n, 0x5EED_0000_0000_0001 ^ n as u64),
+                    "zero" => vec![0; n],
+                    _ => (0..n).map(|i| (i % 251) as u8).collect(),
+                };
+                out.push((format!("{name}/f{frames}/{content}"), Img::new(r, c, frames, bits, spp, data)));
+            }
+        }
+    }
+    out
+}
+
+/// C19 boundary-size part: every lossless and native target, in memory and (encapsulated targets)
+/// through a written file.
+pub fn run_c19_boundary(check: &Check) {
+    let imgs = boundary_images();
+    let mut targets: Vec<&str> = encoder_targets().into_iter().filter(|u| LOSSLESS_UIDS.contains(u)).collect();
+    targets.extend(NATIVE.iter().map(|x| x.0));
+    let mut units = vec![];
+    for (ii, _) in imgs.iter().enumerate() {
+        for (ti, t) in targets.iter().enumerate() {
+            for mid in ["mem", "file"] {
+                if mid == "file" && NATIVE.iter().any(|n| n.0 == *t) {
+                    continue;
+                }
+                units.push((ii, ti, *t, mid));
+            }
+        }
+    }
+    check.extra("boundary_images", json!(imgs.len()));
+    check.extra("boundary_cases", json!(units.len()));
+    check.par_range(units.len() as u64, |l, i| {
+        let (ii, ti, target, mid) = units[i as usize];
+        let (name, img) = &imgs[ii];
+        let case_id = format!("boundary/{name}/t{ti}/{mid}");
+        if !l.want(&case_id) {
+            return;
+        }
+        l.eval();
+        let class = merge(&img_class(img), json!({"family": "boundary", "origin": "api", "src_ts": EXPLICIT_LE, "target": target, "mid": mid,
+            "content": name.rsplit('/').next().unwrap(), "frame_bytes": img.frame_bytes()}));
+        c19_case(l, &case_id, img, "api", NATIVE[1], target, mid, &class);
+    });
+}
+
 /// C19: transcode to `target`, optionally persist, transcode back to Explicit VR LE, write, and
 /// compare the written pixel data and attributes with the original image.
 pub fn run_c19(check: &Check) {
@@ -115,11 +193,17 @@ pub fn run_c19(check: &Check) {
     targets.extend(NATIVE.iter().map(|x| x.0));
     check.extra("universe_images", json!(imgs.len()));
     check.extra("targets", json!(targets));
+    let quick = check.quick();
     check.par_range(imgs.len() as u64, |l, i| {
         let img = &imgs[i as usize];
         let base = img_class(img);
         for origin in ["api", "file"] {
             for (si, src) in NATIVE.iter().enumerate() {
+                // quick tier: an object built through the API differs between source syntaxes
+                // only in its meta table; keep Explicit VR LE
+                if quick && origin == "api" && si != 1 {
+                    continue;
+                }
                 for (ti, target) in targets.iter().enumerate() {
                     for mid in ["mem", "file"] {
                         // persisting a native object in between is C01's subject
@@ -158,7 +242,7 @@ fn c19_case(l: &mut Local, case_id: &str, img: &Img, origin: &str, src: (&str, T
             return;
         }
     };
-    l.nontrivial(&(img.label(), origin, src.0, target, mid));
+    l.nontrivial(&(img.label(), vx_kit::hash_of(&img.data), origin, src.0, target, mid));
     match guard(|| transcode_to(&mut obj, target)) {
         Ok(Ok(())) => {}
         Ok(Err(e)) => return fail(l, "encode", "err", e),
